@@ -66,7 +66,9 @@ Inductive zop :=
 | ORelease (c : N) (p : raw_path)
 | OExpire (c : N)                 (* the server expires the client's session; the client reconnects with a fresh one *)
 | OAdvance (dt : Z)
-| ORawGarbage (p : raw_path).     (* another tool overwrites the node with bytes that are not JSON *)
+| ORawGarbage (p : raw_path)      (* another tool overwrites the node with bytes that are not JSON *)
+| ODrop (c : N).                  (* the client's connection is cut and re-established within the session: zk.go
+                                     forgets what it believed about locks on every event that is not "has session" *)
 
 Definition with_tree (st : zstate) (t : ztree) : zstate :=
   {| zs_tree := t; zs_clients := zs_clients st; zs_now := zs_now st; zs_next := zs_next st; zs_ttl := zs_ttl st |}.
@@ -191,6 +193,10 @@ Definition zstep (st : zstate) (o : zop) : zstate * zres :=
       | Some n => (with_tree st (tput t p {| zn_val := ZGarbage; zn_eph := zn_eph n |}), ZOk)
       | None => (st, ZOk)
       end
+  | ODrop c =>
+      let cl := cget (zs_clients st) c in
+      ({| zs_tree := t; zs_clients := cput (zs_clients st) c {| zc_session := zc_session cl; zc_cache := [] |};
+          zs_now := zs_now st; zs_next := zs_next st; zs_ttl := zs_ttl st |}, ZOk)
   end.
 
 Fixpoint zrun (st : zstate) (ops : list zop) : zstate * list zres :=
